@@ -26,7 +26,7 @@ SPEC = {
     "rule": ("condition trees x define assignments; non-trivial = case with >= 2 chains (or nesting >= 2) in which at least one "
              "define changes the selected world relative to the no-define run, or a confirmed rejection (unknown define, "
              "undecidable condition); distinct = distinct (source, defines)"),
-    "monitors": ["one-world-equality", "value-model", "reject-equals-model", "cli-define-spellings"],
+    "monitors": ["one-world-equality", "value-model", "reject-equals-model", "cli-define-spellings", "once-in-dead-arm"],
     "min_nontrivial": {"quick": 500, "thorough": 10000},
     "assumptions": ["constants in conditions are global names (relative names cannot be decided before layout, by design)"],
 }
@@ -173,6 +173,54 @@ def shard(ctx):
                 ctx.sample({"source": src[:900], "defines": [d[3] for d in defs], "one_world": twin_src[:400], "result": a[0], "bits": ((a[2] or "")[:40] if a[0] == "ok" else None)}, limit=1)
         if n % 60 == 0:
             cli_case(ctx, rng)
+        if n % 8 == 0:
+            once_case(ctx, rng, worker)
+
+
+def once_case(ctx, rng, worker):
+    """A `#once` written inside an arm that is not selected has no effect: the file is spliced at every inclusion."""
+    flags = {"FA": rng.random() < 0.5, "FB": rng.random() < 0.5}
+    over = {k: rng.random() < 0.5 for k in flags if rng.random() < 0.6}
+    final = dict(flags); final.update(over)
+    shape = rng.choice(["if", "if-else", "if-elif-else"])
+    arms = [("FA", 0xa1)] + ([("FB", 0xb1)] if shape == "if-elif-else" else [])
+    has_else = shape != "if"
+    selected = next((i for i, (c, _) in enumerate(arms) if final[c]), len(arms) if has_else else None)
+    slots = len(arms) + (1 if has_else else 0)
+    dead = [i for i in range(slots) if i != selected]
+    if not dead:
+        return
+    where = rng.choice(dead)
+    lib_lines = []
+    for i in range(slots):
+        if i < len(arms):
+            lib_lines.append(("#if %s" if i == 0 else "#elif %s") % arms[i][0])
+            mark = arms[i][1]
+        else:
+            lib_lines.append("#else")
+            mark = 0xe1
+        lib_lines += ["{"] + (["    #once"] if i == where else []) + ["    #d8 0x%02x" % mark, "}"]
+    lib_lines.append("#d8 0xaa")
+    k = rng.randint(2, 4)
+    inc = rng.choice(['#include "lib.asm"', '#include "./lib.asm"', '#include "/lib.asm"'])
+    main = "\n".join(["%s = %s" % (n, "true" if v else "false") for n, v in sorted(flags.items())] + ["#d8 0x11"] + [inc] * k + ["#d8 0x22"]) + "\n"
+    per = ([arms[selected][1]] if selected is not None and selected < len(arms) else [0xe1] if selected is not None else []) + [0xaa]
+    want = bytes([0x11] + per * k + [0x22]).hex()
+    job = lib.asm_job({"main.asm": main, "lib.asm": "\n".join(lib_lines) + "\n"}, want=["msgs"],
+                      opts={"defines": [{"name": n, "bool": v} for n, v in sorted(over.items())]})
+    rec = worker.run(job)
+    ctx.evaluated()
+    if lib.abnormal(rec):
+        ctx.excluded += 1
+        return
+    ctx.monitor("once-in-dead-arm")
+    got = rec["out"]["hex"] if lib.ok(rec) else None
+    if got != want:
+        ctx.violation("one-world", {"kind": "once-in-unselected-arm-has-an-effect", "accepted": lib.ok(rec)}, job,
+                      {"hex": want}, {"hex": got, "msgs": lib.first_messages(rec)})
+    else:
+        ctx.count("once-in-dead-arm:agree")
+        ctx.nontrivial_case((main + repr(lib_lines) + repr(over)).encode())
 
 
 def cli_case(ctx, rng):
